@@ -60,6 +60,7 @@ type Plan struct {
 	Marker      bool             `json:"marker,omitempty"`       // deliver the rollback of branch 0 between its registration and its flush
 	MarkerN     int              `json:"marker_n,omitempty"`     // ... that many times (1..3)
 	ReportFails bool             `json:"report_fails,omitempty"` // marker stream: every BranchReport of the late phase one fails (transport)
+	AutoStep    int              `json:"auto_step,omitempty"`    // auto_increment_increment of the plan's server (0/1, 2, 5)
 	// HookWrite: a foreign write attempted right after the first validation query of the first delivery, i.e. between
 	// the SELECT .. FOR UPDATE and the compensating statement of the same rollback transaction
 	HookWrite *Foreign `json:"hook_write,omitempty"`
@@ -69,7 +70,19 @@ var names = []string{"ann", "bob", "cy", "dee", "eve", "flo", "gus", "hal"}
 
 func genTable(r *hutil.Rng, name string) *Table {
 	t := &Table{Name: name}
-	switch r.Intn(10) {
+	switch r.Intn(18) {
+	case 16:
+		t.Keys = []Col{{Name: "id", Typ: "BIGINT", Big: true}}
+	case 17:
+		t.Keys = []Col{{Name: "code", Typ: "VARCHAR", Num: true}}
+	case 14, 15:
+		t.Keys = []Col{{Name: "id", Typ: "BIGINT", AutoInc: true}}
+	case 12, 13:
+		t.Keys = []Col{{Name: "k1", Typ: "VARCHAR"}, {Name: "k2", Typ: "VARCHAR"}}
+	case 10: // consecutive ids no float64 can tell apart
+		t.Keys = []Col{{Name: "id", Typ: "BIGINT", Big: true}}
+	case 11: // character keys that denote the same number
+		t.Keys = []Col{{Name: "code", Typ: "VARCHAR", Num: true}}
 	case 8, 9: // unsigned / narrow integer keys at the boundaries of their widths
 		t.Keys = []Col{{Name: "id", Typ: []string{"INT UNSIGNED", "SMALLINT UNSIGNED", "TINYINT UNSIGNED", "SMALLINT"}[r.Intn(4)]}}
 	case 6, 7: // two character key columns: joined key texts that collide unless the separator is unambiguous
@@ -103,7 +116,7 @@ func genTable(r *hutil.Rng, name string) *Table {
 	return t
 }
 
-var doubles = []float64{500, 0.5, 1000000.01, 1000000.02, 3.25, -17.125, 1e15 + 0.5, 123456789.123, 0.1, 2}
+var doubles = []float64{12345678.9, 98765432.125, 500, 0.5, 1000000.01, 1000000.02, 3.25, -17.125, 1e15 + 0.5, 123456789.123, 0.1, 2}
 
 func genVal(r *hutil.Rng, c Col) Val {
 	if c.Nullable && r.Chance(1, 5) {
@@ -112,6 +125,9 @@ func genVal(r *hutil.Rng, c Col) Val {
 	base := time.Date(2024, 2, 28, 23, 59, 59, 0, time.UTC)
 	switch c.Typ {
 	case "DECIMAL":
+		if r.Chance(1, 2) { // balances whose cents are below 1e-6 of their magnitude
+			return vDec(float64(1000000000+r.Intn(8999999999)) / 100)
+		}
 		return vDec(float64(r.Intn(200000)-50000) / 100)
 	case "DATETIME":
 		return vTime(base.Add(time.Duration(r.Intn(200000))*time.Second + time.Duration(r.Intn(1000000))*time.Microsecond))
@@ -175,6 +191,9 @@ func nearVal(r *hutil.Rng, c Col, v Val) (Val, bool) {
 	case v.K == "time" && c.Typ == "DATETIME":
 		t, _ := parseTimeAny(v.V)
 		return vTime(t.Add(time.Microsecond)), true
+	case v.K == "time" && c.Typ == "TIMESTAMP":
+		t, _ := parseTimeAny(v.V)
+		return vTime(t.Add(time.Millisecond)), true
 	case v.K == "bytes":
 		return Val{K: "bytes", V: v.V + "00"}, len(v.V) < 30
 	case v.K == "int" && c.Typ == "BIGINT":
@@ -210,6 +229,14 @@ func keyOf(t *Table, i int) []Val {
 	if len(t.Keys) == 2 && t.Keys[0].Typ == "VARCHAR" && t.Keys[1].Typ == "VARCHAR" && i >= 1 && i <= len(keyPairs) {
 		return []Val{vStr(keyPairs[i-1][0]), vStr(keyPairs[i-1][1])}
 	}
+	if len(t.Keys) == 1 && t.Keys[0].Big && t.Keys[0].Typ == "BIGINT" {
+		return []Val{vInt(1800000000000000000 + int64(i))}
+	}
+	if len(t.Keys) == 1 && t.Keys[0].Num && t.Keys[0].Typ == "VARCHAR" {
+		if num := []string{"1", "01", "1.0", "1e0", " 1", "10.5", "10.50", "+1"}; i >= 1 && i <= len(num) {
+			return []Val{vStr(num[i-1])}
+		}
+	}
 	if _, ok := intBounds[t.Keys[0].Typ]; ok && len(t.Keys) == 1 && t.Keys[0].Typ != "INT" {
 		// keys 1.. run through boundary values first, then count on with small values (distinct from them)
 		pos := map[string][]int64{
@@ -229,7 +256,9 @@ func keyOf(t *Table, i int) []Val {
 		} else if j == 0 {
 			k = append(k, vInt(int64(i)))
 		} else {
-			k = append(k, vInt(int64(i%3)))
+			// never 0: on the integrated tree an explicit 0 in a primary-key column is taken for "generate it" and the INSERT
+			// fails when the table has no AUTO_INCREMENT column (phase one, C18's subject; reported)
+			k = append(k, vInt(int64(i%3)+1))
 		}
 	}
 	return k
@@ -383,6 +412,9 @@ func (g *genCtx) genStmt(t *Table, own func(i int) bool, explicit bool) Stmt {
 		return row
 	}
 	k := r.Intn(10)
+	if auto && r.Chance(1, 3) {
+		k = 0 // INSERT: generated keys
+	}
 	if len(t.Keys) == 2 && t.Keys[0].Typ == "VARCHAR" && r.Chance(1, 2) {
 		k = 5 // UPDATE: images holding several rows with composite character keys
 	}
@@ -392,10 +424,10 @@ func (g *genCtx) genStmt(t *Table, own func(i int) bool, explicit bool) Stmt {
 		withKey := !(auto && r.Chance(2, 3))
 		n := 1
 		params := r.Chance(1, 2)
-		if r.Chance(1, 3) {
-			// multi-row: literals only (bound key parameters are the region insert.multirow.params) and explicit keys
-			// (a multi-row INSERT that leaves the auto-increment key out panics in the insert executor: phase one, C18's subject)
-			n, params, withKey = 2+r.Intn(2), false, true
+		if r.Chance(1, 3) || (auto && !withKey && r.Chance(1, 2)) {
+			// multi-row: literals only (bound key parameters are the region insert.multirow.params); the generated-key
+			// form (auto-increment key left out) is allowed
+			n, params = 2+r.Intn(2), false
 		}
 		for i := 0; i < n; i++ {
 			s.Rows = append(s.Rows, newRow(withKey))
@@ -408,11 +440,38 @@ func (g *genCtx) genStmt(t *Table, own func(i int) bool, explicit bool) Stmt {
 		var sets []string
 		for j := 0; j < 1+r.Intn(2); j++ {
 			ci := r.Intn(len(t.Cols))
+			if j == 0 && r.Chance(1, 2) {
+				// prefer a column whose own change can be tiny (a cent on a large balance, the next representable double)
+				var fine []int
+				for x, c := range t.Cols {
+					if c.Typ == "DECIMAL" || c.Typ == "DOUBLE" || c.Typ == "FLOAT" {
+						fine = append(fine, x)
+					}
+				}
+				if len(fine) > 0 {
+					ci = fine[r.Intn(len(fine))]
+				}
+			}
 			if seen[ci] {
 				continue
 			}
 			seen[ci] = true
 			c := t.Cols[ci]
+			if c.Typ == "DECIMAL" && r.Chance(2, 3) {
+				n := int64(1 + r.Intn(2))
+				s.Set = append(s.Set, SetItem{Col: ci, Op: "incd", N: n})
+				sets = append(sets, fmt.Sprintf("%s = %s + 0.0%d", c.Name, c.Name, n))
+				continue
+			}
+			if (c.Typ == "DOUBLE" || c.Typ == "FLOAT") && r.Chance(1, 2) {
+				if rows := g.rows[t.Name]; len(rows) > 0 {
+					if nv, ok := nearVal(r, c, rows[r.Intn(len(rows))].Vals[ci]); ok {
+						s.Set = append(s.Set, SetItem{Col: ci, Op: "val", V: nv})
+						sets = append(sets, c.Name+" = "+nv.lit())
+						continue
+					}
+				}
+			}
 			if c.Typ == "BIGINT" && r.Chance(1, 3) {
 				n := int64(1 + r.Intn(5))
 				s.Set = append(s.Set, SetItem{Col: ci, Op: "inc", N: n})
@@ -420,7 +479,7 @@ func (g *genCtx) genStmt(t *Table, own func(i int) bool, explicit bool) Stmt {
 				continue
 			}
 			v := genVal(r, c)
-			if rows := g.rows[t.Name]; len(rows) > 0 && r.Chance(1, 2) {
+			if rows := g.rows[t.Name]; len(rows) > 0 && (r.Chance(1, 2) || (len(t.Keys) == 2 && t.Keys[0].Typ == "VARCHAR" && r.Chance(1, 2))) {
 				v = rows[r.Intn(len(rows))].Vals[ci] // what some (perhaps matched) row already holds: that part of the image is unchanged
 			}
 			s.Set = append(s.Set, SetItem{Col: ci, Op: "val", V: v})
@@ -528,6 +587,9 @@ func genPlan(r *hutil.Rng, stream string, seed uint64, idx int) *Plan {
 		}
 	}
 	p.Tables = g.tables
+	if r.Chance(1, 2) {
+		p.AutoStep = []int{2, 5}[r.Intn(2)]
+	}
 	for _, t := range g.tables {
 		if len(t.Keys) == 2 && t.Keys[0].Typ == "VARCHAR" {
 			// composite character keys: exercise the validation's row matching on images that hold many rows
